@@ -43,6 +43,13 @@ def cases(tier, seed):
                 cs.append({'scen': 'copies', 's': dict(s, op='to_other', to='complex128')})
             if dt == 'float32':
                 cs.append({'scen': 'copies', 's': dict(s, op='to_other', to='float64')})
+    # copies of an object whose cores are watched by autograd
+    for N, R, M in [([2, 3], [1, 2, 1], None), ([2, 2, 2], [1, 2, 2, 1], None), ([2, 2], [1, 2, 1], [2, 1])]:
+        for w in ([], [1]):
+            sd = {'N': N, 'R': R, 'dtype': 'float64', 'op': 'clone', 'watched': w}
+            if M:
+                sd['M'] = M
+            cs.append({'scen': 'copies', 's': sd})
     # objects whose cores are views of one storage
     for al in (2, 3):
         for op in ('clone', 'detach', 'cpu', 'to_same', 'numpy', 'to_other'):
